@@ -31,36 +31,71 @@ theorem noctx {i : Input} {al : AList} (w : ALwf i al) (nl : NoLib i) {e : Strin
     have := hl c hc
     rw [nl sg (findGlyph_some hsg).1 s hs] at this; simp at this
 
+/-- a NamedAnchor is contextual exactly when its name starts with '*' -/
+theorem ctx_iff_star {i : Input} {al : AList} (w : ALwf i al) {e : String × List NA} (he : e ∈ al) {a : NA} (ha : a ∈ e.2) :
+    a.ctx = none ↔ (a.name.toList.head? == some '*') = false := by
+  constructor
+  · exact w.nostar e he a ha
+  · intro h
+    cases hc : a.ctx with
+    | none => rfl
+    | some c => have := (w.cshape e he a ha c hc).1; rw [h] at this; simp at this
+
+/-- a plain name that answers a plain key also answers it as pairing name -/
+theorem pairName_of_plain_match {s : SrcAnchor} {k : List Char} {c : Option Nat} (hk : plainKey k = true)
+    (hm : baseNameMatches k c s.name.toList = true) :
+    baseNameMatches k c (pairName s) = true ∧ (s.name.toList.head? == some '*') = false := by
+  obtain ⟨c0, r0, ek, hc0⟩ := ((plainKey_iff k).mp hk).1
+  have hhead : (s.name.toList.head? == some '*') = false := by
+    cases c with
+    | none =>
+      have : s.name.toList = k := by simpa [baseNameMatches] using hm
+      rw [this, ek]
+      simp only [head?_cons, beq_eq_false_iff_ne, ne_eq, Option.some.injEq]
+      exact alpha_ne_star c0 hc0
+    | some j =>
+      have hl' : isLigName k (j + 1) s.name.toList = true := by simpa [baseNameMatches] using hm
+      obtain ⟨ds, ⟨_, _, e⟩, _⟩ := sepDigits_of_isLigName hl'
+      rw [e, ek]
+      simp only [cons_append, head?_cons, beq_eq_false_iff_ne, ne_eq, Option.some.injEq]
+      exact alpha_ne_star c0 hc0
+  refine ⟨?_, hhead⟩
+  unfold pairName
+  split
+  · rw [effName_plain hhead]; exact hm
+  · exact hm
+
 section
-variable {i : Input} {al : AList} (w : ALwf i al) (cv : ALcov i al) (nl : NoLib i)
-include w cv nl
+variable {i : Input} {al : AList} (w : ALwf i al) (cv : ALcov i al)
+include w cv
 
 omit w in
 /-- a source anchor `_k` on an included glyph gives a mark NamedAnchor in the lists -/
 theorem na_of_src_mark {sg : SrcGlyph} (hsg : sg ∈ i.glyphs) (hinc : included i sg.name = true) {s : SrcAnchor}
     (hs : s ∈ sg.anchors) {k : List Char} (hn : s.name.toList = '_' :: k) (hk : plainKey k = true) :
-    ∃ a, AnchorIn al sg.name a ∧ a.isMark = true ∧ a.key = String.ofList k := by
-  obtain ⟨a0, h0, _, h2, h3, _⟩ := src_mark (q := i.quant) hn hk
-  obtain ⟨as, has, a, ha, _, e2, e3, _⟩ := cv.cov sg hsg hinc s hs a0 h0
-  exact ⟨a, ⟨as, has, ha⟩, by rw [e2, h2], by rw [e3, h3]⟩
+    ∃ a, AnchorIn al sg.name a ∧ a.isMark = true ∧ a.key = String.ofList k ∧ a.name = s.name := by
+  obtain ⟨a0, h0, h1, h2, h3, _⟩ := src_mark (q := i.quant) hn hk
+  obtain ⟨as, has, a, ha, e1, e2, e3, _⟩ := cv.cov sg hsg hinc s hs a0 h0
+  exact ⟨a, ⟨as, has, ha⟩, by rw [e2, h2], by rw [e3, h3], by rw [e1, h1]⟩
 
 omit w in
-/-- a source anchor `k` or `k_N` on an included glyph gives a base-side NamedAnchor in the lists -/
+/-- a source anchor that answers key `k` under its pairing name gives a base-side NamedAnchor of that name in the lists -/
+theorem na_of_src_side {sg : SrcGlyph} (hsg : sg ∈ i.glyphs) (hinc : included i sg.name = true) {s : SrcAnchor}
+    (hs : s ∈ sg.anchors) {k : List Char} (hk : plainKey k = true) (c : Option Nat)
+    (hm : baseNameMatches k c (pairName s) = true) :
+    ∃ a, AnchorIn al sg.name a ∧ a.isMark = false ∧ a.key = String.ofList k ∧ a.number = c.map (· + 1) ∧ a.name = s.name := by
+  obtain ⟨a0, h0, h1, h2, h3, h4, _⟩ := src_side (q := i.quant) c hm hk
+  obtain ⟨as, has, a, ha, e1, e2, e3, e4⟩ := cv.cov sg hsg hinc s hs a0 h0
+  exact ⟨a, ⟨as, has, ha⟩, by rw [e2, h2], by rw [e3, h3], by rw [e4, h4], by rw [e1, h1]⟩
+
+/-- a source anchor `k` or `k_N` (plain name) on an included glyph gives a plain base-side NamedAnchor in the lists -/
 theorem na_of_src_base {sg : SrcGlyph} (hsg : sg ∈ i.glyphs) (hinc : included i sg.name = true) {s : SrcAnchor}
     (hs : s ∈ sg.anchors) {k : List Char} (hk : plainKey k = true) (c : Option Nat)
     (hm : baseNameMatches k c s.name.toList = true) :
-    ∃ a, AnchorIn al sg.name a ∧ a.isMark = false ∧ a.key = String.ofList k ∧ a.number = c.map (· + 1) := by
-  cases c with
-  | none =>
-    have hn : s.name.toList = k := by simpa [baseNameMatches] using hm
-    obtain ⟨a0, h0, _, h2, h3, h4⟩ := src_base (q := i.quant) hn hk
-    obtain ⟨as, has, a, ha, _, e2, e3, e4⟩ := cv.cov sg hsg hinc s hs a0 h0
-    exact ⟨a, ⟨as, has, ha⟩, by rw [e2, h2], by rw [e3, h3], by rw [e4, h4]; rfl⟩
-  | some j =>
-    have hl : isLigName k (j + 1) s.name.toList = true := by simpa [baseNameMatches] using hm
-    obtain ⟨a0, h0, _, h2, h3, h4⟩ := src_lig (q := i.quant) hl ((plainKey_iff k).mp hk).1 (by omega)
-    obtain ⟨as, has, a, ha, _, e2, e3, e4⟩ := cv.cov sg hsg hinc s hs a0 h0
-    exact ⟨a, ⟨as, has, ha⟩, by rw [e2, h2], by rw [e3, h3], by rw [e4, h4]; rfl⟩
+    ∃ a, AnchorIn al sg.name a ∧ a.isMark = false ∧ a.key = String.ofList k ∧ a.number = c.map (· + 1) ∧ a.ctx = none := by
+  obtain ⟨hm', hhead⟩ := pairName_of_plain_match hk hm
+  obtain ⟨a, ⟨as, has, ha⟩, h1, h2, h3, h4⟩ := na_of_src_side cv hsg hinc hs hk c hm'
+  exact ⟨a, ⟨as, has, ha⟩, h1, h2, h3, (ctx_iff_star w has ha).mpr (by rw [h4]; exact hhead)⟩
 
 /-- Spec.isMarkGlyph ⇒ the writer's markGlyphNames -/
 theorem mg_of_isMarkGlyph {b : String} {gb : SrcGlyph} (hfb : findGlyph i b = some gb) (h : isMarkGlyph i gb = true) :
@@ -76,33 +111,37 @@ theorem mg_of_isMarkGlyph {b : String} {gb : SrcGlyph} (hfb : findGlyph i b = so
     simp only [Bool.and_eq_true, any_eq_true] at hcond
     obtain ⟨hpk, hh, hhg, hhinc, hbs⟩ := hcond
     obtain ⟨hn, _⟩ := markKey_some hmk
-    obtain ⟨am, ham, hmm, hmkey⟩ := na_of_src_mark cv nl hgb hinc hs hn hpk
+    obtain ⟨am, ham, hmm, hmkey, hmname⟩ := na_of_src_mark cv hgb hinc hs hn hpk
     -- the base side
     unfold hasBaseSide at hbs
     rw [any_eq_true] at hbs
     obtain ⟨s', hs', hcase⟩ := hbs
-    have hpn : pairName s' = s'.name.toList := by simp [pairName, nl hh hhg s' hs']
-    rw [hpn] at hcase
     have : ∃ ab, AnchorIn al hh.name ab ∧ ab.isMark = false ∧ ab.key = String.ofList k := by
       rw [Bool.or_eq_true] at hcase
       rcases hcase with hc | hc
-      · obtain ⟨a, h1, h2, h3, _⟩ := na_of_src_base cv nl hhg hhinc hs' hpk none (by simpa [baseNameMatches] using hc)
+      · obtain ⟨a, h1, h2, h3, _⟩ := na_of_src_side cv hhg hhinc hs' hpk none (by simpa [baseNameMatches] using hc)
         exact ⟨a, h1, h2, h3⟩
       · simp only [Bool.and_eq_true, Bool.not_eq_true', all_eq_true] at hc
         obtain ⟨⟨hpre, hne⟩, hdig⟩ := hc
-        have hl0 : isLigName k (digitsToNat (s'.name.toList.drop (k.length + 1))) s'.name.toList = true := by
+        have hl0 : isLigName k (digitsToNat ((pairName s').drop (k.length + 1))) (pairName s') = true := by
           simp only [isLigName, hpre, hne, Bool.not_false, Bool.true_and, Bool.and_eq_true, all_eq_true, beq_self_eq_true, and_true]
           exact hdig
         obtain ⟨ds, hsd, hnum⟩ := sepDigits_of_isLigName hl0
-        have hpos := lig_number_pos cv hhg hhinc hs' (Or.inl ((plainKey_iff k).mp hpk).1) hsd
+        have hka := ((plainKey_iff k).mp hpk).1
+        have hpos : 1 ≤ digitsToNat ds := by
+          unfold pairName at hsd
+          split at hsd
+          · exact lig_number_pos_eff cv hhg hhinc hs' hka hsd
+          · exact lig_number_pos cv hhg hhinc hs' (Or.inl hka) hsd
         rw [hnum] at hpos
-        obtain ⟨j, hj⟩ : ∃ j, digitsToNat (s'.name.toList.drop (k.length + 1)) = j + 1 := ⟨_, (Nat.sub_add_cancel hpos).symm⟩
+        obtain ⟨j, hj⟩ : ∃ j, digitsToNat ((pairName s').drop (k.length + 1)) = j + 1 := ⟨_, (Nat.sub_add_cancel hpos).symm⟩
         rw [hj] at hl0
-        obtain ⟨a, h1, h2, h3, _⟩ := na_of_src_base cv nl hhg hhinc hs' hpk (some j) (by simpa [baseNameMatches] using hl0)
+        obtain ⟨a, h1, h2, h3, _⟩ := na_of_src_side cv hhg hhinc hs' hpk (some j) (by simpa [baseNameMatches] using hl0)
         exact ⟨a, h1, h2, h3⟩
     obtain ⟨ab, hab, hnb, hbkey⟩ := this
     obtain ⟨asm, hasm, hamm⟩ := ham
-    exact pair_mg w ⟨hab, ⟨asm, hasm, hamm⟩, hnb, hmm, noctx w nl hasm hamm, by rw [hmkey, hbkey]⟩ hok
+    have hcm : am.ctx = none := plain_of_us w hasm hamm (by rw [hmname]; exact hn)
+    exact pair_mg w ⟨hab, ⟨asm, hasm, hamm⟩, hnb, hmm, hcm, by rw [hmkey, hbkey]⟩ hok
 
 omit cv in
 /-- the writer's markGlyphNames ⇒ Spec.isMarkGlyph -/
@@ -119,12 +158,12 @@ theorem isMarkGlyph_of_mg {b : String} {gb : SrcGlyph} (hfb : findGlyph i b = so
   rw [hfb] at hsg
   simp only [Option.some.injEq] at hsg; subst hsg
   obtain ⟨s, hs, hsn, _, _⟩ := hsrc a ha1
-  have hsa := w.shape _ has a ha1 (noctx w nl has ha1)
+  have hsa := shape_of_mem_markNames w has ha1 ha3
   obtain ⟨hn, hpk, _⟩ := hsa.mark ha2
   have hkne : a.key.toList ≠ [] := by
     obtain ⟨⟨c', r', e', _⟩, _⟩ := (plainKey_iff _).mp hpk
     rw [e']; simp
-  -- the paired base-side anchor
+  -- the paired base-side anchor (plain or contextual)
   obtain ⟨e1, he1, a', ha', hp, hn1⟩ := mem_markNames.mp ha3
   obtain ⟨hnm', _⟩ := paired_iff.mp hp
   have hkey : a'.key = a.key := by
@@ -132,8 +171,23 @@ theorem isMarkGlyph_of_mg {b : String} {gb : SrcGlyph} (hfb : findGlyph i b = so
     exact (String.append_right_inj "_").mp h1
   obtain ⟨sg', hsg', hinc', hsrc'⟩ := w.src _ he1
   obtain ⟨hsg'm, hsg'n⟩ := findGlyph_some hsg'
-  obtain ⟨s', hs', hs'n, _, _⟩ := hsrc' a' ha'
-  have hsa' := w.shape _ he1 a' ha' (noctx w nl he1 ha')
+  obtain ⟨s', hs', hs'n, _, _, hs'lib⟩ := hsrc' a' ha'
+  -- its pairing name and the shape of that name
+  have hshape : NAShapeOn (pairName s') a' := by
+    cases hc : a'.ctx with
+    | none =>
+      have hstar := w.nostar _ he1 a' ha' hc
+      have : pairName s' = a'.name.toList := by
+        unfold pairName
+        split
+        · rw [hs'n, effName_plain hstar]
+        · rw [hs'n]
+      rw [this]; exact w.shape _ he1 a' ha' hc
+    | some c =>
+      have : pairName s' = effName a'.name.toList := by
+        unfold pairName
+        rw [hs'lib c hc, hs'n]; rfl
+      rw [this]; exact (w.cshape _ he1 a' ha' c hc).2
   simp only [isMarkGlyph, Bool.and_eq_true, any_eq_true]
   rw [hname]
   refine ⟨⟨hinc, hok⟩, s, hs, ?_⟩
@@ -143,14 +197,13 @@ theorem isMarkGlyph_of_mg {b : String} {gb : SrcGlyph} (hfb : findGlyph i b = so
   unfold hasBaseSide
   rw [any_eq_true]
   refine ⟨s', hs', ?_⟩
-  have hpn : pairName s' = s'.name.toList := by simp [pairName, nl sg' hsg'm s' hs']
-  rw [hpn, hs'n, ← hkey]
+  rw [← hkey]
   cases hnum : a'.number with
   | none =>
-    obtain ⟨e2, _⟩ := hsa'.base hnm' hnum
+    obtain ⟨e2, _⟩ := hshape.base hnm' hnum
     simp [e2]
   | some n =>
-    obtain ⟨_, hl, _⟩ := hsa'.lig hnm' n hnum
+    obtain ⟨_, hl, _⟩ := hshape.lig hnm' n hnum
     simp only [isLigName, Bool.and_eq_true, Bool.not_eq_true'] at hl
     obtain ⟨⟨⟨h1, h2⟩, h3⟩, _⟩ := hl
     simp [h1, h2, h3]
